@@ -614,7 +614,13 @@ class Target(DataExchangeProtocol):
                 elif req.pfb.fmt == DEP_REQ.NegativeAck:
                     res = dep_res
                 elif req.pfb.fmt == DEP_REQ.TimeoutExtension:
-                    dep_req = req
+                    if ((dep_res is not None and
+                         dep_res.pfb.fmt == DEP_RES.TimeoutExtension)):
+                        dep_req = req
+                    else:
+                        # repeated after the response that followed the
+                        # timeout extension was lost
+                        res = dep_res
                 elif req.pfb.pni == self.pni:
                     res = dep_res
                 else:
